@@ -555,4 +555,14 @@ func init() {
 		Variant{Name: "same edit seen by C11", Property: "C11", File: mmm,
 			Old: "\tnewId := fmt.Sprintf(\"%d\", m.muxIdSequencer)\n", New: "\tif _, err := yamuxSession.Ping(); err != nil {\n\t\tm.logger.Info(\"ping failed\")\n\t}\n\tnewId := fmt.Sprintf(\"%d\", m.muxIdSequencer)\n", Expect: "O11.5"},
 	)
+	addVariants(
+		Variant{Name: "IsEnabled requires the CA server name as well", Property: "C19", File: tlsf,
+			Old: "\treturn (t.CertificatePath != \"\" && t.KeyPath != \"\") || t.CAServerName != \"\"\n", New: "\treturn (t.CertificatePath != \"\" && t.KeyPath != \"\") && t.CAServerName != \"\"\n", Expect: "O19.6"},
+		Variant{Name: "benign: IsEnabled in if-return style", Property: "C19", File: tlsf, Benign: true,
+			Old: "\treturn (t.CertificatePath != \"\" && t.KeyPath != \"\") || t.CAServerName != \"\"\n", New: "\tif t.CAServerName != \"\" {\n\t\treturn true\n\t}\n\treturn t.CertificatePath != \"\" && t.KeyPath != \"\"\n"},
+		Variant{Name: "shard key drops the cluster id", Property: "C08", File: adm,
+			Old: "\treturn fmt.Sprintf(\"%d:%d\", sd.ClusterID, sd.ShardID)\n", New: "\treturn fmt.Sprintf(\"%d:%d\", sd.ShardID, sd.ShardID)\n", Expect: "O8.9"},
+		Variant{Name: "shard key without separator (C09 view)", Property: "C09", File: adm,
+			Old: "\treturn fmt.Sprintf(\"%d:%d\", sd.ClusterID, sd.ShardID)\n", New: "\treturn fmt.Sprintf(\"%d%d\", sd.ClusterID, sd.ShardID)\n", Expect: "O9.7"},
+	)
 }
